@@ -541,6 +541,22 @@ pub fn faults_of(step: &Value, h: &Hist, i: usize) -> Vec<Fault> {
                 if k == m { v.push(e.clone()); }
             }
             res.push(("l.gap_and_dup".into(), with_list(v), None));
+            // the same with the second entry under serial m pointing to a different document that applies
+            // cleanly after the first one (an empty delta): only the serial sequence tells that a step is missing
+            for before in [false, true] {
+                let doc = json!({"t": "d", "session": base["notify"]["session"], "serial": ds[m]["serial"], "els": [], "broken": false});
+                let extra = json!({"serial": ds[m]["serial"], "ref": 90 + m as u64, "dig": {"doc": doc}});
+                let mut v: Vec<Value> = Vec::new();
+                for (k, e) in ds.iter().enumerate() {
+                    if k == j { continue }
+                    if k == m && before { v.push(extra.clone()); }
+                    v.push(e.clone());
+                    if k == m && !before { v.push(extra.clone()); }
+                }
+                let mut s = with_list(v);
+                s["files"].as_array_mut().unwrap().push(json!({"ref": 90 + m as u64, "status": 200, "doc": doc}));
+                res.push(("l.gap_and_empty_dup".into(), s, None));
+            }
         }
     }
     if l > 1 {
